@@ -92,7 +92,10 @@ def handleMtTrace (a : Args) : String :=
     | some evs =>
       let cfg : Cfg := { units, srcOk, endFused := fused, maxWorkers := maxw, initialWorkers := initw }
       match replay cfg evs with
-      | .ok _ => s!"ok events={evs.length}"
+      | .ok v =>
+        if a.nat? "stats" == some 1 then
+          s!"ok events={evs.length} labels={v.path.rev.length} swaps={v.nSwap} phantom={v.nPhantom} dropwin={v.nDropWin} obs={v.nObs} early={v.nEarly} post={v.nPost} workers={v.perm.length}"
+        else s!"ok events={evs.length}"
       | .error (k, why) => s!"mismatch at={k} event={toks.getD k "(end)"} {why}"
   | _, _, _, _, _, _ => "bad-op"
 
